@@ -38,12 +38,14 @@ def liveness(c):
     """MC_GitBugLive.tla: after editing stops, fair pushes / fetches / merges lead to (and keep) identical replicas."""
     import os
     d = c.specdir()
-    maxc, reps = (7, "A, B") if c.tier == "quick" else (8, "A, B")
+    # editing uses at most MaxCommit - Reserve commits; the reserve must cover the merge commits of the synchronisation (a fast-forward
+    # needs none): RoomForMerges is checked as an invariant so that a starved model shows as such, not as a liveness failure
+    maxc, reserve, reps = (8, 4, "A, B") if c.tier == "quick" else (10, 5, "A, B")
     for name, spec in (("MC_GitBugLive_run.cfg", "LSpec"), ("MC_GitBugLive_nomerge_run.cfg", "LSpecNoMerge")):
         with open(os.path.join(d, name), "w") as f:
             f.write("SPECIFICATION %s\nCONSTANTS\n  Replica = {%s}\n  NBug = 1\n  Author = {u1, u2}\n  MaxHop = 1000\n  MaxCommit = %d\n  RankDir = 1\n"
-                    "  WithRestart = FALSE\n  LoaderLess = FALSE\n  Reserve = 3\nINVARIANTS AllReadable\nPROPERTY EventuallySame\nCHECK_DEADLOCK FALSE\n" % (spec, reps, maxc))
-    c.tlc_model("MC_GitBugLive", "MC_GitBugLive_run.cfg", timeout=3000, label="liveness: editing stops, fair synchronisation => eventually always identical replicas (<= %d commits)" % maxc)
+                    "  WithRestart = FALSE\n  LoaderLess = FALSE\n  Reserve = %d\nINVARIANTS AllReadable RoomForMerges\nPROPERTY EventuallySame\nCHECK_DEADLOCK FALSE\n" % (spec, reps, maxc, reserve))
+    c.tlc_model("MC_GitBugLive", "MC_GitBugLive_run.cfg", timeout=3000, label="liveness: editing stops, fair synchronisation => eventually always identical replicas (<= %d commits, %d of them reserved for merges)" % (maxc, reserve))
     r = c.tlc("MC_GitBugLive", "MC_GitBugLive_nomerge_run.cfg", timeout=3000, label="witness: without fair merges convergence must fail")
     if "EventuallySame" not in r.out or "violated" not in r.out:
         raise Broken("the liveness property holds without fair merges: it says nothing (vacuity guard)")
